@@ -57,6 +57,16 @@ def gen(rng, tier):
         if rng.random() < 0.3:
             sc = "+".join([hx("GET /n200 HTTP/1.1\r\n\r\n"), sc])
         cases.append("S %d ok %s %d %s" % (S, rng.choice(["0", "4096,1000,30000"]), 0, sc))
+    # idle keep-alive: the client has read the answers and keeps the connection open without sending anything; no temp
+    # file may be alive then (mode I: known-length uploads answered 2xx, one or two on the same connection)
+    ni = 6 if tier == "quick" else 60
+    for j in range(ni):
+        L = [70000, 100, 5, 65537, 200000, 9][j % 6]
+        path = ["/g%d" % (L + 5), "/gg%d" % (L + 5), "/g%d" % (L + 5)][j % 3]
+        sc = upload(path, L, L, True, j % 4 == 1, rng.randint(1, 10**6), False)
+        if j % 3 == 2:
+            sc = "+".join([sc, upload("/g%d" % (L + 7), L, L, True, False, rng.randint(1, 10**6), False)])
+        cases.append("I %d ok %s %d %s" % (S, ["0", "4096,1000,30000"][j % 2], 0, sc))
     return cases
 
 def classify(case, model):
